@@ -255,3 +255,27 @@ impl FrameQueue {
     pub(crate) fn verif_nonce_of(&self, frame_id: u32) -> Option<bool> { self.frame_log.get_frame(frame_id).map(|e| e.nonce) }
     pub(crate) fn verif_acked(&self, frame_id: u32) -> Option<bool> { self.frame_log.get_frame(frame_id).map(|e| e.acked) }
 }
+
+//@h props=C15,C03,C11 tier=quick timeout=1200 role=transfer-window-partial
+//@fn FrameQueue::{push, can_push, can_advance_transfer_window, advance_transfer_window}
+//@bound transfer window of 4 with only TWO frames sent (ids 2^32-2, 2^32-1); the peer's frame window base in an ack frame is ANY u32
+#[kani::proof]
+#[kani::unwind(6)]
+fn o15_3_transfer_window_never_passes_frames_never_sent() {
+    let base: u32 = 0xFFFF_FFFE;
+    let mut fq = FrameQueue::new(4, 4, base);
+    fq.push(10, 0, Box::new([]), kani::any());
+    fq.push(10, 1, Box::new([]), kani::any());
+    let nb: u32 = kani::any();
+    let rtt = if kani::any() { Some(kani::any::<u64>() & 0xFFFF) } else { None };
+    fq.advance_transfer_window(nb, rtt);
+    let d = nb.wrapping_sub(base);
+    if d >= 1 && d <= 2 {
+        assert!(fq.base_id() == nb, "[C11] a window base within the frames sent is accepted");
+    } else {
+        assert!(fq.base_id() == base, "[C15,C03] a window base that acknowledges frames never sent (or lies behind us) changes nothing");
+    }
+    assert!(fq.next_id().wrapping_sub(fq.base_id()) <= 2 && fq.can_push(), "[C15,C11] the window base never overtakes the next frame id: the sender can always go on");
+    assert!(fq.next_id() == 0);
+    std::mem::forget(fq);
+}
